@@ -19,24 +19,25 @@ CONSTANTS
   Req,          \* requests (calls), small integers; arrival order is free
   Conn,         \* connection identifiers 1..N (allocated in order)
   Origin,       \* origins
-  OriginOf,     \* [Req -> Origin]
+  Cfgs,         \* set of configurations explored; a configuration is a record
+                \*   originOf : [Req -> Origin]
+                \*   maxConn  : pool limit
+                \*   maxKeep  : keep-alive limit (already min'ed with maxConn by the constructor)
+                \*   expiry   : keep-alive expiry in ticks, or NoExpiry
+                \*   poolTO   : [Req -> pool timeout in ticks, or NoTimeout]
+                \*   mux      : origins whose connections turn out to be HTTP/2
+                \*   muxGuess : origins whose still-connecting connections report "available"
   None,
-  MaxConn,      \* pool limit
-  MaxKeep,      \* keep-alive limit (already min'ed with MaxConn by the constructor)
-  Expiry,       \* keep-alive expiry in ticks, or NoExpiry
   NoExpiry,
-  PoolTO,       \* [Req -> pool timeout in ticks, or NoTimeout]
   NoTimeout,
-  Mux,          \* origins whose connections turn out to be HTTP/2
-  MuxGuess,     \* origins whose still-connecting connections report "available"
   MaxClock,
   Faults,       \* how many injected failures / cancellations / peer closes in total
   Abandons,     \* may callers close a response without reading it to the end
   Deviations
 
-ASSUME MaxConn \in Nat \ {0} /\ MaxKeep \in Nat /\ Mux \subseteq MuxGuess
 
 VARIABLES
+  cfg,      \* the configuration (never changes)
   pool,     \* Seq(Conn): pool._connections, in order
   nextc,    \* next unused connection id
   cst,      \* [Conn -> "unused"|"connecting"|"failed"|"new"|"active"|"idle"|"closed"]
@@ -66,10 +67,18 @@ VARIABLES
 
 cvars == <<cst, corg, cmux, cexp, cdead, cerr, cstr, ccnt, cexch, cwire>>
 rvars == <<pc, asg, tocl, nxt, exc, creq, sent, got, wdl>>
-vars  == <<pool, nextc, cvars, evicted, queue, rvars, clock, budget, pclosed>>
+vars  == <<cfg, pool, nextc, cvars, evicted, queue, rvars, clock, budget, pclosed>>
 
 Terminal == {"done", "failed", "timedout", "cancelled"}
 Live(r)  == pc[r] \notin Terminal \cup {"init"}
+
+OriginOf == cfg.originOf
+MaxConn  == cfg.maxConn
+MaxKeep  == cfg.maxKeep
+Expiry   == cfg.expiry
+PoolTO   == cfg.poolTO
+Mux      == cfg.mux
+MuxGuess == cfg.muxGuess
 
 SeqToSet(s) == {s[i] : i \in DOMAIN s}
 SeqRemove(s, x) == SelectSeq(s, LAMBDA y : y # x)
@@ -98,7 +107,7 @@ IsIdle(c)     == IsIdleS(cst[c])
 IsAvail(c)    == IsAvailS(cst[c], cmux[c], cerr[c], corg[c])
 HasExpired(c) == HasExpiredS(cst[c], cmux[c], cexp[c], cdead[c], clock)
 
-Users(c) == {r \in Req : asg[r] = c /\ pc[r] \in {"estab", "tls", "gate", "send", "recv", "hold", "body", "rel"}}
+Users(c) == {r \in Req : asg[r] = c /\ pc[r] \in {"send", "recv", "hold", "rel"}}   \* past the ACTIVE gate
 
 (***************************************************************************)
 (* The assignment pass (connection_pool.py 270-339) as a FUNCTION of the   *)
@@ -144,14 +153,14 @@ AssignAll(q, i, S) ==
   ELSE IF S.asg[q[i]] = None THEN AssignAll(q, i + 1, AssignOne(S, q[i]))
   ELSE AssignAll(q, i + 1, S)
 
-PassResult(q, a) ==
-  LET S0 == [cur |-> pool, asg |-> a, cl |-> {}, nx |-> nextc, st |-> cst, org |-> corg]
+PassResult(q, a, st0) ==
+  LET S0 == [cur |-> pool, asg |-> a, cl |-> {}, nx |-> nextc, st |-> st0, org |-> corg]
       S1 == Clean(pool, 1, S0)
   IN AssignAll(q, 1, S1)
 
-(* the pass as executed by request r with queue q and assignment a; r continues at `then` *)
-DoPass(r, q, a, then, pcr) ==
-  LET S == PassResult(q, a) IN
+(* apply the outcome S of a pass executed by request r; r continues at `then`.
+   S = [cur, asg, cl, nx, st, org] *)
+ApplyPass(r, S, q, then, pcr) ==
   /\ pool' = S.cur /\ nextc' = S.nx
   /\ cst' = S.st /\ corg' = S.org
   /\ queue' = q
@@ -175,7 +184,7 @@ PassRel(P, A, Q, P2, A2, CL, now, st0) ==
       Id(c)  == IsIdleS(st0[c])
       Exp(c) == HasExpiredS(st0[c], cmux[c], cexp[c], cdead[c], now)
       Av(c)  == IsAvailS(st0[c], cmux[c], cerr[c], corg[c])
-      idle0 == Cardinality({c \in Pset : Id(c) /\ ~Cl(c) /\ ~Exp(c)})
+      idle0 == Cardinality({c \in Pset : Id(c)})       \* idle as the public API reports it (a failed one counts)
       newly == {r \in SeqToSet(Q) : A[r] = None /\ A2[r] # None}
       left  == {r \in SeqToSet(Q) : A2[r] = None}
       roomEv == {c \in Gone : ~Cl(c) /\ ~Exp(c)}      \* removed although healthy
@@ -213,7 +222,7 @@ PassRel(P, A, Q, P2, A2, CL, now, st0) ==
   /\ Cardinality({c \in P2set \ New : Id(c)}) <= MaxKeep
 
 -----------------------------------------------------------------------------
-Init ==
+InitRest ==
   /\ pool = <<>> /\ nextc = 1
   /\ cst = [c \in Conn |-> "unused"] /\ corg = [c \in Conn |-> ""]
   /\ cmux = [c \in Conn |-> FALSE] /\ cexp = [c \in Conn |-> NoExpiry]
@@ -228,13 +237,16 @@ Init ==
   /\ wdl = [r \in Req |-> NoTimeout]
   /\ clock = 0 /\ budget = Faults /\ pclosed = FALSE
 
+Init == cfg \in Cfgs /\ InitRest
+
 (***************************************************************************)
 (* Caller arrives: enqueue (pool 218-221) and run a pass (225-229).        *)
 (***************************************************************************)
-Call(r) ==
+CallW(r, S) ==
   /\ pc[r] = "init" /\ ~pclosed
-  /\ DoPass(r, Append(queue, r), asg, "wait", pc)
-  /\ UNCHANGED <<cmux, cexp, cdead, cerr, cstr, ccnt, cexch, cwire, exc, creq, sent, got, wdl, clock, budget, pclosed>>
+  /\ ApplyPass(r, S, Append(queue, r), "wait", pc)
+  /\ UNCHANGED <<cfg, cmux, cexp, cdead, cerr, cstr, ccnt, cexch, cwire, exc, creq, sent, got, wdl, clock, budget, pclosed>>
+Call(r) == CallW(r, PassResult(Append(queue, r), asg, cst))
 
 (* close one connection evicted by r's own pass (pool 341-345, shielded) *)
 CloseEvicted(r) ==
@@ -247,7 +259,7 @@ CloseEvicted(r) ==
      /\ IF tocl[r] = {c}
           THEN pc' = [pc EXCEPT ![r] = nxt[r]]
           ELSE UNCHANGED pc
-  /\ UNCHANGED <<pool, nextc, corg, cmux, cexp, cdead, cerr, ccnt, cexch, cwire, queue, asg, nxt, exc, creq, sent, got, wdl, clock, budget, pclosed>>
+  /\ UNCHANGED <<cfg, pool, nextc, corg, cmux, cexp, cdead, cerr, ccnt, cexch, cwire, queue, asg, nxt, exc, creq, sent, got, wdl, clock, budget, pclosed>>
 
 (***************************************************************************)
 (* wait_for_connection (pool 31-37, 232).  Assigned by a pass -> go on.    *)
@@ -260,13 +272,13 @@ StartWait(r) ==
        THEN pc' = [pc EXCEPT ![r] = "enter"] /\ UNCHANGED wdl
        ELSE /\ pc' = [pc EXCEPT ![r] = "parked"]
             /\ wdl' = [wdl EXCEPT ![r] = IF PoolTO[r] = NoTimeout THEN NoTimeout ELSE clock + PoolTO[r]]
-  /\ UNCHANGED <<pool, nextc, cvars, evicted, queue, asg, tocl, nxt, exc, creq, sent, got, clock, budget, pclosed>>
+  /\ UNCHANGED <<cfg, pool, nextc, cvars, evicted, queue, asg, tocl, nxt, exc, creq, sent, got, clock, budget, pclosed>>
 
 Wake(r) ==
   /\ pc[r] = "parked" /\ asg[r] # None
   /\ pc' = [pc EXCEPT ![r] = "enter"]
   /\ wdl' = [wdl EXCEPT ![r] = NoTimeout]
-  /\ UNCHANGED <<pool, nextc, cvars, evicted, queue, asg, tocl, nxt, exc, creq, sent, got, clock, budget, pclosed>>
+  /\ UNCHANGED <<cfg, pool, nextc, cvars, evicted, queue, asg, tocl, nxt, exc, creq, sent, got, clock, budget, pclosed>>
 
 TimeoutDue(r) == pc[r] = "parked" /\ wdl[r] # NoTimeout /\ clock >= wdl[r]
 
@@ -277,7 +289,7 @@ PoolTimeout(r) ==
   /\ pc' = [pc EXCEPT ![r] = "leave"]
   /\ exc' = [exc EXCEPT ![r] = "timeout"]
   /\ wdl' = [wdl EXCEPT ![r] = NoTimeout]
-  /\ UNCHANGED <<pool, nextc, cvars, evicted, queue, asg, tocl, nxt, creq, sent, got, clock, budget, pclosed>>
+  /\ UNCHANGED <<cfg, pool, nextc, cvars, evicted, queue, asg, tocl, nxt, creq, sent, got, clock, budget, pclosed>>
 
 (***************************************************************************)
 (* Entering the assigned connection.                                       *)
@@ -290,7 +302,7 @@ Enter(r) ==
        [] cst[c] = "connecting"
             -> pc' = [pc EXCEPT ![r] = "reqlock"]     \* somebody else is establishing it: wait for the request lock
        [] OTHER -> pc' = [pc EXCEPT ![r] = "gate"]
-  /\ UNCHANGED <<pool, nextc, cvars, evicted, queue, asg, tocl, nxt, exc, creq, sent, got, wdl, clock, budget, pclosed>>
+  /\ UNCHANGED <<cfg, pool, nextc, cvars, evicted, queue, asg, tocl, nxt, exc, creq, sent, got, wdl, clock, budget, pclosed>>
 
 ReqLock(r) ==
   /\ pc[r] = "reqlock" /\ cst[asg[r]] # "connecting"
@@ -299,26 +311,44 @@ ReqLock(r) ==
             \* modelled as the same failure reaching it
             pc' = [pc EXCEPT ![r] = "leave"] /\ exc' = [exc EXCEPT ![r] = "fail"]
        ELSE pc' = [pc EXCEPT ![r] = "gate"] /\ UNCHANGED exc
-  /\ UNCHANGED <<pool, nextc, cvars, evicted, queue, asg, tocl, nxt, creq, sent, got, wdl, clock, budget, pclosed>>
+  /\ UNCHANGED <<cfg, pool, nextc, cvars, evicted, queue, asg, tocl, nxt, creq, sent, got, wdl, clock, budget, pclosed>>
 
-(* TCP connect completes (connection.py 105-139) *)
+(* the network stream opens (TCP connect completes, connection.py 105-139); what follows
+   (TLS, CONNECT, SOCKS negotiation) happens on the open stream while the connection still
+   reports CONNECTING *)
 ConnectOk(r) ==
   /\ pc[r] = "estab"
+  /\ cstr' = [cstr EXCEPT ![asg[r]] = "open"]
+  /\ pc' = [pc EXCEPT ![r] = "tls"]
+  /\ UNCHANGED <<cfg, pool, nextc, cst, corg, cmux, cexp, cdead, cerr, ccnt, cexch, cwire, evicted, queue, asg, tocl, nxt, exc, creq, sent, got, wdl, clock, budget, pclosed>>
+
+Established(r) ==
+  /\ pc[r] = "tls"
   /\ LET c == asg[r] IN
-     /\ cstr' = [cstr EXCEPT ![c] = "open"]
      /\ cmux' = [cmux EXCEPT ![c] = corg[c] \in Mux]
      /\ cst' = [cst EXCEPT ![c] = IF corg[c] \in Mux THEN "idle" ELSE "new"]
   /\ pc' = [pc EXCEPT ![r] = "gate"]
-  /\ UNCHANGED <<pool, nextc, corg, cexp, cdead, cerr, ccnt, cexch, cwire, evicted, queue, asg, tocl, nxt, exc, creq, sent, got, wdl, clock, budget, pclosed>>
+  /\ UNCHANGED <<cfg, pool, nextc, corg, cexp, cdead, cerr, cstr, ccnt, cexch, cwire, evicted, queue, asg, tocl, nxt, exc, creq, sent, got, wdl, clock, budget, pclosed>>
 
-(* establishment fails: the failure flag makes the object removable (connection.py 99-101) *)
+(* establishment fails before the stream exists: the failure flag makes the object
+   removable (connection.py 99-101) *)
 ConnectFail(r) ==
   /\ pc[r] = "estab" /\ budget > 0
   /\ cst' = [cst EXCEPT ![asg[r]] = "failed"]
   /\ pc' = [pc EXCEPT ![r] = "leave"]
   /\ exc' = [exc EXCEPT ![r] = "fail"]
   /\ budget' = budget - 1
-  /\ UNCHANGED <<pool, nextc, corg, cmux, cexp, cdead, cerr, cstr, ccnt, cexch, cwire, evicted, queue, asg, tocl, nxt, creq, sent, got, wdl, clock, pclosed>>
+  /\ UNCHANGED <<cfg, pool, nextc, corg, cmux, cexp, cdead, cerr, cstr, ccnt, cexch, cwire, evicted, queue, asg, tocl, nxt, creq, sent, got, wdl, clock, pclosed>>
+
+(* ... or after it was opened (TLS handshake, proxy negotiation): the stream must be closed *)
+EstabFail(r) ==
+  /\ pc[r] = "tls" /\ budget > 0
+  /\ cst' = [cst EXCEPT ![asg[r]] = "failed"]
+  /\ cstr' = [cstr EXCEPT ![asg[r]] = IF "EstabFailLeaksStream" \in Deviations THEN @ ELSE "closed"]
+  /\ pc' = [pc EXCEPT ![r] = "leave"]
+  /\ exc' = [exc EXCEPT ![r] = "fail"]
+  /\ budget' = budget - 1
+  /\ UNCHANGED <<cfg, pool, nextc, corg, cmux, cexp, cdead, cerr, ccnt, cexch, cwire, evicted, queue, asg, tocl, nxt, creq, sent, got, wdl, clock, pclosed>>
 
 (***************************************************************************)
 (* The ACTIVE gate (http11 72-78 / http2 94-100)                           *)
@@ -333,17 +363,18 @@ Activate(r) ==
           /\ cexp' = [cexp EXCEPT ![c] = NoExpiry]
           /\ cexch' = [cexch EXCEPT ![c] = IF cmux[c] THEN @ ELSE "req"]
           /\ pc' = [pc EXCEPT ![r] = "send"]
-          /\ UNCHANGED <<asg>>
+          /\ UNCHANGED <<cfg, asg>>
      ELSE \* ConnectionNotAvailable: keep the queue position, forget the connection, new pass
           /\ pc' = [pc EXCEPT ![r] = "retry"]
           /\ asg' = [asg EXCEPT ![r] = None]
-          /\ UNCHANGED <<cst, ccnt, cexp, cexch>>
-  /\ UNCHANGED <<pool, nextc, corg, cmux, cdead, cerr, cstr, cwire, evicted, queue, tocl, nxt, exc, creq, sent, got, wdl, clock, budget, pclosed>>
+          /\ UNCHANGED <<cfg, cst, ccnt, cexp, cexch>>
+  /\ UNCHANGED <<cfg, pool, nextc, corg, cmux, cdead, cerr, cstr, cwire, evicted, queue, tocl, nxt, exc, creq, sent, got, wdl, clock, budget, pclosed>>
 
-Retry(r) ==
+RetryW(r, S) ==
   /\ pc[r] = "retry"
-  /\ DoPass(r, queue, asg, "wait", pc)
-  /\ UNCHANGED <<cmux, cexp, cdead, cerr, cstr, ccnt, cexch, cwire, exc, creq, sent, got, wdl, clock, budget, pclosed>>
+  /\ ApplyPass(r, S, queue, "wait", pc)
+  /\ UNCHANGED <<cfg, cmux, cexp, cdead, cerr, cstr, ccnt, cexch, cwire, exc, creq, sent, got, wdl, clock, budget, pclosed>>
+Retry(r) == RetryW(r, PassResult(queue, asg, cst))
 
 (***************************************************************************)
 (* The exchange                                                            *)
@@ -354,7 +385,7 @@ Send(r) ==          \* request written completely; the peer answers with r's tok
      /\ sent' = [sent EXCEPT ![r] = @ \cup {c}]
      /\ cwire' = [cwire EXCEPT ![c] = IF cmux[c] THEN @ ELSE Append(@, r)]
   /\ pc' = [pc EXCEPT ![r] = "recv"]
-  /\ UNCHANGED <<pool, nextc, cst, corg, cmux, cexp, cdead, cerr, cstr, ccnt, cexch, evicted, queue, asg, tocl, nxt, exc, creq, got, wdl, clock, budget, pclosed>>
+  /\ UNCHANGED <<cfg, pool, nextc, cst, corg, cmux, cexp, cdead, cerr, cstr, ccnt, cexch, evicted, queue, asg, tocl, nxt, exc, creq, got, wdl, clock, budget, pclosed>>
 
 RecvHead(r) ==
   /\ pc[r] = "recv"
@@ -363,7 +394,7 @@ RecvHead(r) ==
      /\ got' = [got EXCEPT ![r] = IF cmux[c] THEN r ELSE Head(cwire[c])]
      /\ cexch' = [cexch EXCEPT ![c] = IF cmux[c] THEN @ ELSE "resp"]
   /\ pc' = [pc EXCEPT ![r] = "hold"]
-  /\ UNCHANGED <<pool, nextc, cst, corg, cmux, cexp, cdead, cerr, cstr, ccnt, cwire, evicted, queue, asg, tocl, nxt, exc, creq, sent, wdl, clock, budget, pclosed>>
+  /\ UNCHANGED <<cfg, pool, nextc, cst, corg, cmux, cexp, cdead, cerr, cstr, ccnt, cwire, evicted, queue, asg, tocl, nxt, exc, creq, sent, wdl, clock, budget, pclosed>>
 
 (* the caller reads the body to the end: exchange complete in both directions *)
 ReadAll(r) ==
@@ -372,13 +403,13 @@ ReadAll(r) ==
      /\ cwire' = [cwire EXCEPT ![c] = IF cmux[c] THEN @ ELSE Tail(@)]
      /\ cexch' = [cexch EXCEPT ![c] = IF cmux[c] THEN @ ELSE "clean"]
   /\ pc' = [pc EXCEPT ![r] = "rel"]
-  /\ UNCHANGED <<pool, nextc, cst, corg, cmux, cexp, cdead, cerr, cstr, ccnt, evicted, queue, asg, tocl, nxt, exc, creq, sent, got, wdl, clock, budget, pclosed>>
+  /\ UNCHANGED <<cfg, pool, nextc, cst, corg, cmux, cexp, cdead, cerr, cstr, ccnt, evicted, queue, asg, tocl, nxt, exc, creq, sent, got, wdl, clock, budget, pclosed>>
 
 (* the caller closes the response early *)
 Abandon(r) ==
   /\ Abandons /\ pc[r] = "hold"
   /\ pc' = [pc EXCEPT ![r] = "rel"]
-  /\ UNCHANGED <<pool, nextc, cvars, evicted, queue, asg, tocl, nxt, exc, creq, sent, got, wdl, clock, budget, pclosed>>
+  /\ UNCHANGED <<cfg, pool, nextc, cvars, evicted, queue, asg, tocl, nxt, exc, creq, sent, got, wdl, clock, budget, pclosed>>
 
 (***************************************************************************)
 (* _response_closed (http11 238-250 / http2 400-413): shielded.            *)
@@ -395,8 +426,8 @@ ConnRelease(r) ==
      THEN /\ IF others = {} /\ cst[c] = "active"
                THEN /\ cst' = [cst EXCEPT ![c] = "idle"]
                     /\ cexp' = [cexp EXCEPT ![c] = IF Expiry = NoExpiry THEN NoExpiry ELSE clock + Expiry]
-               ELSE UNCHANGED <<cst, cexp>>
-          /\ UNCHANGED <<cstr, cexch>>
+               ELSE UNCHANGED <<cfg, cst, cexp>>
+          /\ UNCHANGED <<cfg, cstr, cexch>>
      ELSE IF clean /\ cst[c] = "active"
      THEN /\ cst' = [cst EXCEPT ![c] = "idle"]
           /\ cexp' = [cexp EXCEPT ![c] = IF Expiry = NoExpiry THEN NoExpiry ELSE clock + Expiry]
@@ -404,9 +435,9 @@ ConnRelease(r) ==
           /\ UNCHANGED cstr
      ELSE /\ cst' = [cst EXCEPT ![c] = "closed"]
           /\ cstr' = [cstr EXCEPT ![c] = IF @ = "open" THEN "closed" ELSE @]
-          /\ UNCHANGED <<cexp, cexch>>
+          /\ UNCHANGED <<cfg, cexp, cexch>>
   /\ pc' = [pc EXCEPT ![r] = "leave"]
-  /\ UNCHANGED <<pool, nextc, corg, cmux, cdead, cerr, ccnt, cwire, evicted, queue, asg, tocl, nxt, exc, creq, sent, got, wdl, clock, budget, pclosed>>
+  /\ UNCHANGED <<cfg, pool, nextc, corg, cmux, cdead, cerr, ccnt, cwire, evicted, queue, asg, tocl, nxt, exc, creq, sent, got, wdl, clock, budget, pclosed>>
 
 (***************************************************************************)
 (* Leaving the pool: response closed (pool 409-420) or exception handler   *)
@@ -423,21 +454,11 @@ Orphan(r) == LET c == asg[r] IN
   /\ "AbandonAssignedFresh" \notin Deviations
 LeaveSt(r) == IF Orphan(r) THEN [cst EXCEPT ![asg[r]] = "failed"] ELSE cst
 
-Leave(r) ==
+LeaveW(r, S) ==
   /\ pc[r] = "leave"
-  /\ LET c == asg[r]
-         st1 == LeaveSt(r)
-         S == LET S0 == [cur |-> pool, asg |-> [asg EXCEPT ![r] = None], cl |-> {}, nx |-> nextc, st |-> st1, org |-> corg]
-              IN AssignAll(SeqRemove(queue, r), 1, Clean(pool, 1, S0))
-     IN
-     /\ pool' = S.cur /\ nextc' = S.nx /\ cst' = S.st /\ corg' = S.org
-     /\ queue' = SeqRemove(queue, r)
-     /\ asg' = S.asg
-     /\ evicted' = evicted \cup S.cl
-     /\ tocl' = [tocl EXCEPT ![r] = S.cl]
-     /\ IF S.cl # {} THEN pc' = [pc EXCEPT ![r] = "clev"] /\ nxt' = [nxt EXCEPT ![r] = Outcome(r)]
-                     ELSE pc' = [pc EXCEPT ![r] = Outcome(r)] /\ UNCHANGED nxt
-  /\ UNCHANGED <<cmux, cexp, cdead, cerr, cstr, ccnt, cexch, cwire, exc, creq, sent, got, wdl, clock, budget, pclosed>>
+  /\ ApplyPass(r, S, SeqRemove(queue, r), Outcome(r), pc)
+  /\ UNCHANGED <<cfg, cmux, cexp, cdead, cerr, cstr, ccnt, cexch, cwire, exc, creq, sent, got, wdl, clock, budget, pclosed>>
+Leave(r) == LeaveW(r, PassResult(SeqRemove(queue, r), [asg EXCEPT ![r] = None], LeaveSt(r)))
 
 (***************************************************************************)
 (* Failures and cancellation (environment)                                 *)
@@ -447,11 +468,11 @@ InExchange == {"send", "recv", "hold"}
 (* a network error / protocol error during the exchange: the connection's exception
    path runs the shielded _response_closed (http11 132-136) *)
 OpFail(r) ==
-  /\ pc[r] \in {"send", "recv"} /\ budget > 0
+  /\ pc[r] \in {"send", "recv", "hold"} /\ budget > 0
   /\ pc' = [pc EXCEPT ![r] = "rel"]
   /\ exc' = [exc EXCEPT ![r] = "fail"]
   /\ budget' = budget - 1
-  /\ UNCHANGED <<pool, nextc, cvars, evicted, queue, asg, tocl, nxt, creq, sent, got, wdl, clock, pclosed>>
+  /\ UNCHANGED <<cfg, pool, nextc, cvars, evicted, queue, asg, tocl, nxt, creq, sent, got, wdl, clock, pclosed>>
 
 (* scope-style cancellation is level triggered: requested once, delivered at the next
    unshielded suspension point *)
@@ -459,33 +480,39 @@ CancelRequest(r) ==
   /\ Live(r) /\ ~creq[r] /\ budget > 0
   /\ creq' = [creq EXCEPT ![r] = TRUE]
   /\ budget' = budget - 1
-  /\ UNCHANGED <<pool, nextc, cvars, evicted, queue, pc, asg, tocl, nxt, exc, sent, got, wdl, clock, pclosed>>
+  /\ UNCHANGED <<cfg, pool, nextc, cvars, evicted, queue, pc, asg, tocl, nxt, exc, sent, got, wdl, clock, pclosed>>
 
 CancelDeliver(r) ==
   /\ creq[r] /\ exc[r] = "none"
   /\ \/ /\ pc[r] \in {"wait", "parked", "enter", "reqlock"}
         /\ pc' = [pc EXCEPT ![r] = "leave"]
-        /\ UNCHANGED cst
+        /\ UNCHANGED <<cst, cstr>>
      \/ /\ pc[r] = "estab"           \* cancelled while connecting: failure flag (connection.py 99-101)
         /\ cst' = [cst EXCEPT ![asg[r]] = "failed"]
+        /\ pc' = [pc EXCEPT ![r] = "leave"]
+        /\ UNCHANGED cstr
+     \/ /\ pc[r] = "tls"             \* cancelled on the open stream: flag, and the stream is closed
+        /\ cst' = [cst EXCEPT ![asg[r]] = "failed"]
+        /\ cstr' = [cstr EXCEPT ![asg[r]] = IF "CancelInEstabLeaksStream" \in Deviations THEN @ ELSE "closed"]
         /\ pc' = [pc EXCEPT ![r] = "leave"]
      \/ /\ pc[r] = "gate"            \* at the state lock, before the ACTIVE gate: no clean-up runs
         /\ IF "CancelAtGateLeavesNew" \in Deviations \/ cst[asg[r]] # "new"
              THEN UNCHANGED cst /\ pc' = [pc EXCEPT ![r] = "leave"]
              ELSE cst' = [cst EXCEPT ![asg[r]] = "closed"] /\ pc' = [pc EXCEPT ![r] = "relstr"]
+        /\ UNCHANGED cstr
      \/ /\ pc[r] \in InExchange
         /\ pc' = [pc EXCEPT ![r] = "rel"]
-        /\ UNCHANGED cst
+        /\ UNCHANGED <<cst, cstr>>
   /\ exc' = [exc EXCEPT ![r] = "cancel"]
   /\ wdl' = [wdl EXCEPT ![r] = NoTimeout]
-  /\ UNCHANGED <<pool, nextc, corg, cmux, cexp, cdead, cerr, cstr, ccnt, cexch, cwire, evicted, queue, asg, tocl, nxt, creq, sent, got, clock, budget, pclosed>>
+  /\ UNCHANGED <<cfg, pool, nextc, corg, cmux, cexp, cdead, cerr, ccnt, cexch, cwire, evicted, queue, asg, tocl, nxt, creq, sent, got, clock, budget, pclosed>>
 
 (* intended design: the never-used fresh connection that was closed at the gate releases its stream *)
 ReleaseStream(r) ==
   /\ pc[r] = "relstr"
   /\ cstr' = [cstr EXCEPT ![asg[r]] = IF @ = "open" THEN "closed" ELSE @]
   /\ pc' = [pc EXCEPT ![r] = "leave"]
-  /\ UNCHANGED <<pool, nextc, cst, corg, cmux, cexp, cdead, cerr, ccnt, cexch, cwire, evicted, queue, asg, tocl, nxt, exc, creq, sent, got, wdl, clock, budget, pclosed>>
+  /\ UNCHANGED <<cfg, pool, nextc, cst, corg, cmux, cexp, cdead, cerr, ccnt, cexch, cwire, evicted, queue, asg, tocl, nxt, exc, creq, sent, got, wdl, clock, budget, pclosed>>
 
 (***************************************************************************)
 (* Time and the peer                                                       *)
@@ -494,20 +521,20 @@ Tick ==
   /\ clock < MaxClock
   /\ ~\E r \in Req : TimeoutDue(r)         \* urgency: a due timeout fires before time moves on
   /\ clock' = clock + 1
-  /\ UNCHANGED <<pool, nextc, cvars, evicted, queue, rvars, budget, pclosed>>
+  /\ UNCHANGED <<cfg, pool, nextc, cvars, evicted, queue, rvars, budget, pclosed>>
 
 PeerClose(c) ==
   /\ cst[c] = "idle" /\ ~cmux[c] /\ ~cdead[c] /\ budget > 0
   /\ cdead' = [cdead EXCEPT ![c] = TRUE]
   /\ budget' = budget - 1
-  /\ UNCHANGED <<pool, nextc, cst, corg, cmux, cexp, cerr, cstr, ccnt, cexch, cwire, evicted, queue, rvars, clock, pclosed>>
+  /\ UNCHANGED <<cfg, pool, nextc, cst, corg, cmux, cexp, cerr, cstr, ccnt, cexch, cwire, evicted, queue, rvars, clock, pclosed>>
 
 Internal(r) ==
   \/ CloseEvicted(r) \/ StartWait(r) \/ Wake(r) \/ PoolTimeout(r) \/ Enter(r) \/ ReqLock(r)
-  \/ ConnectOk(r) \/ Activate(r) \/ Retry(r) \/ Send(r) \/ RecvHead(r) \/ ReadAll(r)
+  \/ ConnectOk(r) \/ Established(r) \/ Activate(r) \/ Retry(r) \/ Send(r) \/ RecvHead(r) \/ ReadAll(r)
   \/ ConnRelease(r) \/ Leave(r) \/ CancelDeliver(r) \/ ReleaseStream(r)
 
-Env(r) == Call(r) \/ ConnectFail(r) \/ OpFail(r) \/ CancelRequest(r) \/ Abandon(r)
+Env(r) == Call(r) \/ ConnectFail(r) \/ EstabFail(r) \/ OpFail(r) \/ CancelRequest(r) \/ Abandon(r)
 
 Terminated == (\A r \in Req : pc[r] \in Terminal) /\ UNCHANGED vars
 
